@@ -169,9 +169,24 @@ def rule_d(ctx: Ctx) -> None:
     modes = sorted(literal_value_frozenset(args, 'DEFUSE_MODES'))
     f = ctx.idx.func(f'{RES}.is_defused')
     ctx.analysed(f.qualname)
+    c0 = ctx.idx.cls(RES)
+
+    def inl(e):
+        # `self.m()` of a single-return helper is read as the returned expression
+        if isinstance(e, ast.Call) and isinstance(e.func, ast.Attribute) and text(e.func.value) == 'self' and not e.args and not e.keywords:
+            m = c0.find_method(e.func.attr)
+            if m is not None:
+                body = [b for b in m.node.body if not (isinstance(b, ast.Expr) and isinstance(b.value, ast.Constant))]
+                if len(body) == 1 and isinstance(body[0], ast.Return) and body[0].value is not None:
+                    return text(body[0].value)
+        return text(e)
+    # locality is a property of base_url (what relative references and the data itself are resolved against); the same
+    # predicates applied to self.url are different atoms: url is None for text/stream sources even when base_url is remote
     atoms = [
-        ('remote', lambda e: text(e) == 'is_remote_url(self.base_url)'),
-        ('local', lambda e: text(e) == 'is_local_url(self.base_url)'),
+        ('remote', lambda e: inl(e) == 'is_remote_url(self.base_url)'),
+        ('local', lambda e: inl(e) == 'is_local_url(self.base_url)'),
+        ('remote_of_url', lambda e: inl(e) == 'is_remote_url(self.url)'),
+        ('local_of_url', lambda e: inl(e) == 'is_local_url(self.url)'),
     ]
     spec = {
         'always': lambda a: True,
